@@ -48,13 +48,19 @@ def verdict_digest(seed: int, n: int) -> str:
     from . import impl
     from .props import c12
 
+    from . import gen
     rng = _r.Random(f"c12cfg:{seed}")
-    pool = c12.build_pool(rng)
-    h = hashlib.sha256()
-    for _ in range(n):
-        op, args = c12.rand_call(rng, pool)
-        with impl.quiet_stdout(os.environ.get("PYTHONIOENCODING", "utf-8") or "utf-8"):
-            h.update(impl._run(op, args).encode())
+    saved = gen.ORDER_RNG
+    gen.ORDER_RNG = _r.Random(f"c12cfg-order:{seed}")      # the batch is the same batch in every process: member orders come from the seed, not from the caller's state
+    try:
+        pool = c12.build_pool(rng)
+        h = hashlib.sha256()
+        for _ in range(n):
+            op, args = c12.rand_call(rng, pool)
+            with impl.quiet_stdout(os.environ.get("PYTHONIOENCODING", "utf-8") or "utf-8"):
+                h.update(impl._run(op, args).encode())
+    finally:
+        gen.ORDER_RNG = saved
     return h.hexdigest()
 
 
